@@ -1277,12 +1277,17 @@ def check_C20(ctx):
             for argv in argvs:
                 shared_dest.append({"op": "run", "env": {}, "version": None, "argv": argv,
                                     "root": gen.mkcmd("app", decls=copy.deepcopy(decls), spec=spec, policy=0)})
+        # two options whose names differ only in case
+        decls = [gen.mkopt(kind, "v", destshare="d"), gen.mkopt(kind, "V", destshare="d")]
+        for argv in (["-v", v1, "-V", v2], ["-V", v1, "-v", v2]):
+            shared_dest.append({"op": "run", "env": {}, "version": None, "argv": argv,
+                                "root": gen.mkcmd("app", decls=copy.deepcopy(decls), spec="-v -V", policy=0)})
         # an option and an argument may carry the same name (-N and N)
         decls = [gen.mkopt(kind, "N", destshare="d"), gen.mkarg(kind, "N", destshare="d")]
         shared_dest.append({"op": "run", "env": {}, "version": None, "argv": ["-N", v1, v2],
                             "root": gen.mkcmd("app", decls=decls, spec="-N N", policy=0)})
-    for n_bad in (2, 3):
-        names = ["a", "b", "c"][:n_bad]
+    for n_bad, letters in ((2, "abc"), (3, "abc"), (2, "pPq"), (3, "xXy"), (3, "Bab")):
+        names = list(letters)[:n_bad]
         decls = [gen.mkopt("int", n) for n in names] + [gen.mkarg("int", "N")]
         for with_arg in (False, True):
             argv = [t for k, n in enumerate(names) for t in ("-" + n, "x%d" % k)] + (["y"] if with_arg else [])
